@@ -10,12 +10,12 @@ from ..symstr import TokStr, make_tokens, model_value, make_slots
 
 A_TOK = ["[C]", "[=C]", "[N]", "[Branch1]", "[=Branch2]", "[Ring1]", "[#Ring2]", "[epsilon]", "[nop]", ".",
          # legacy
-         "[Branch1_2]", "[Expl=Ring1]", "[Expl\\Ring2]", "[Cexpl]", "[=N+expl]", "[c-expl]", "[expl]", "[=expl]",
+         "[Branch1_2]", "[Expl=Ring1]", "[Expl\\Ring2]", "[Cexpl]", "[=N+expl]", "[c-expl]", "[expl]", "[=expl]", "[nHexpl]", "[=c@@Hexpl]",
          # malformed / outside the grammar
          "[]", "[x]", "[Branch4]", "[=Ring9]", "[CH9]", "[C+0]", "[eps]", "[ch12]", "[ng12]", "[/\\Ring1]", "[--Ring1]",
          "[12C@@H1+1]", "[C@@@]", "[Xx]", "[1]", "[=]", "[C-]"]
 SIGMA = ["[", "]", ".", "C", "=", "#", "1", "H", "+", "-", "@", "x", "e", "p", "l", "²"]
-CELLS = ["[C]", "[Ring1]", "[Branch1]", "[", "]", ".", "x", "", "[nop]", "[Cexpl]", "[=Oexpl]"]
+CELLS = ["[C]", "[Ring1]", "[Branch1]", "[", "]", ".", "x", "", "[nop]", "[Cexpl]", "[=Oexpl]", "[cH1expl]"]
 
 
 def _snapshot(ctx):
